@@ -202,6 +202,9 @@ class Style:
     def sp(self, minimal=" "):
         if not self.p(self.ws):
             return minimal
+        if self.rnd.random() < 0.08:
+            # a long run of blanks (longer than any look-ahead window one might think of)
+            return minimal + self.rnd.choice([" " * 9, " " * 17, "\t\t\t", " " * 7 + "\t"])
         return minimal + self.rnd.choice([" ", "  ", "\t", " \t "]) if minimal else self.rnd.choice(["", " ", "  ", "\t"])
 
 
@@ -554,7 +557,9 @@ def r_stmt(st, style=PLAIN, indent=""):
             body = style.caseflip(d) + (style.sp(" ") + words if words else "")
     elif k == "wordlist":
         body = ("," + style.sp(" ")).join(r_expr(e, style) for e in st.exprs)
-        if not body[:1].isdigit():
+        if getattr(st, "name_led", False) and style.rnd is not None and body[:1].isalpha():
+            pass        # a name followed by an operator that cannot start a statement: an implicit word list as well (the generator vouches)
+        elif not body[:1].isdigit():
             body = style.caseflip(".word") + " " + body
     elif k == "str":
         body = style.caseflip(st.d) + style.sp(" ") + r_string_chunks(st.chunks, st.quote, style)
